@@ -334,7 +334,10 @@ impl LogState {
                                     if let Some((_, loglock, _)) = info.as_mut() {
                                         loglock.unlock()?;
                                     }
+                                    // Normalized, so that a target reached under several
+                                    // names ("../c" from two directories) is shown once.
                                     let new_t = mydir.join(RedoPath::from_str(g.text())?);
+                                    let new_t = new_t.normpath();
                                     let got = self.catlog(ps, matches, show_status, &new_t)?;
                                     interrupted += got;
                                     lines_written += got;
@@ -361,7 +364,10 @@ impl LogState {
                                 if let Some((_, loglock, _)) = info.as_mut() {
                                     loglock.unlock()?;
                                 }
+                                // Normalized, so that a target reached under several
+                                // names ("../c" from two directories) is shown once.
                                 let new_t = mydir.join(RedoPath::from_str(g.text())?);
+                                let new_t = new_t.normpath();
                                 let got = self.catlog(ps, matches, show_status, &new_t)?;
                                 interrupted += got;
                                 lines_written += got;
